@@ -16,7 +16,7 @@ for d in sorted(glob.glob(os.path.join(V, "seeded", "*"))):
     for pre in ("Seed ", "seed "):
         pass
     if m.get("obsolete"):
-        st = "obsolete (no longer breaks the property on the current tree)"
+        st = "not a violation on the current tree (see meta.json: " + (m.get("obsolete_reason") or "")[:110].rstrip() + "…)"
     elif m.get("caught_by"):
         st = "caught by " + ", ".join(m["caught_by"])
         if m.get("strengthening"):
